@@ -1,3 +1,4 @@
 registry! {
+    "C01" => c01,
     "C05" => c05,
 }
